@@ -336,7 +336,7 @@ Proof.
 Qed.
 
 Theorem extract_total toks : Content.extract toks <> Panic /\ Content.extract toks <> Fuel.
-Proof. apply loop_total. Qed.
+Proof. unfold Content.extract. destruct toks; [split; discriminate|apply loop_total]. Qed.
 
 (* ------------------------------------------------------------------ the byte-level extractor *)
 Theorem extract_bytes_total_gen rel maxd s :
